@@ -32,6 +32,7 @@ import (
 type namedBytes struct {
 	name string
 	b    []byte
+	site string // the function of a constructor chain that receives this argument ("" = the target's constructor)
 }
 
 // directProbe: observable behaviour of a directly constructed primitive; peer is its counterpart (or
@@ -119,8 +120,12 @@ func directTarget(name, site, kind, concrete string, cost int, args []namedBytes
 		c.Site(site, append([]string{site}, ops...)...)
 		in := make([][]byte, len(args))
 		for i, a := range args {
+			if a.site != "" {
+				c.Site(a.site)
+			}
 			in[i] = c.In(a.name, a.b)
 		}
+		c.Site(site)
 		p, err := mk(in)
 		if !c.Check(err) {
 			return nil
@@ -169,18 +174,18 @@ func init() {
 	_ = asAny
 
 	// ---------------- aead/subtle
-	directTarget("aead/subtle.AESGCM", "aead/subtle.NewAESGCM", "aead", "aead/subtle.(AESGCM)", 0, []namedBytes{{"key", k32}},
+	directTarget("aead/subtle.AESGCM", "aead/subtle.NewAESGCM", "aead", "aead/subtle.(AESGCM)", 0, []namedBytes{{"key", k32, ""}},
 		func(a [][]byte) (any, error) { return aeadsubtle.NewAESGCM(a[0]) }, nil)
-	directTarget("aead/subtle.AESGCMSIV", "aead/subtle.NewAESGCMSIV", "aead", "aead/subtle.(AESGCMSIV)", 0, []namedBytes{{"key", k32}},
+	directTarget("aead/subtle.AESGCMSIV", "aead/subtle.NewAESGCMSIV", "aead", "aead/subtle.(AESGCMSIV)", 0, []namedBytes{{"key", k32, ""}},
 		func(a [][]byte) (any, error) { return aeadsubtle.NewAESGCMSIV(a[0]) }, nil)
-	directTarget("aead/subtle.ChaCha20Poly1305", "aead/subtle.NewChaCha20Poly1305", "aead", "aead/subtle.(ChaCha20Poly1305)", 0, []namedBytes{{"key", k32}},
+	directTarget("aead/subtle.ChaCha20Poly1305", "aead/subtle.NewChaCha20Poly1305", "aead", "aead/subtle.(ChaCha20Poly1305)", 0, []namedBytes{{"key", k32, ""}},
 		func(a [][]byte) (any, error) { return aeadsubtle.NewChaCha20Poly1305(a[0]) }, nil)
-	directTarget("aead/subtle.XChaCha20Poly1305", "aead/subtle.NewXChaCha20Poly1305", "aead", "aead/subtle.(XChaCha20Poly1305)", 0, []namedBytes{{"key", k32}},
+	directTarget("aead/subtle.XChaCha20Poly1305", "aead/subtle.NewXChaCha20Poly1305", "aead", "aead/subtle.(XChaCha20Poly1305)", 0, []namedBytes{{"key", k32, ""}},
 		func(a [][]byte) (any, error) { return aeadsubtle.NewXChaCha20Poly1305(a[0]) }, nil)
-	directTarget("aead/subtle.AESCTR", "aead/subtle.NewAESCTR", "indcpa", "aead/subtle.(AESCTR)", 0, []namedBytes{{"key", k16}},
+	directTarget("aead/subtle.AESCTR", "aead/subtle.NewAESCTR", "indcpa", "aead/subtle.(AESCTR)", 0, []namedBytes{{"key", k16, ""}},
 		func(a [][]byte) (any, error) { return aeadsubtle.NewAESCTR(a[0], 16) }, nil)
 	directTarget("aead/subtle.EncryptThenAuthenticate", "aead/subtle.NewEncryptThenAuthenticate", "aead", "aead/subtle.(EncryptThenAuthenticate)", 0,
-		[]namedBytes{{"aesKey", k16}, {"hmacKey", k32}},
+		[]namedBytes{{"aesKey", k16, "aead/subtle.NewAESCTR"}, {"hmacKey", k32, "mac/subtle.NewHMAC"}},
 		func(a [][]byte) (any, error) {
 			ctr, err := aeadsubtle.NewAESCTR(a[0], 16)
 			if err != nil {
@@ -193,17 +198,17 @@ func init() {
 			return aeadsubtle.NewEncryptThenAuthenticate(ctr, m, 16)
 		}, nil, "aead/subtle.NewAESCTR", "mac/subtle.NewHMAC")
 	// ---------------- daead/subtle
-	directTarget("daead/subtle.AESSIV", "daead/subtle.NewAESSIV", "daead", "daead/subtle.(AESSIV)", 0, []namedBytes{{"key", k64}},
+	directTarget("daead/subtle.AESSIV", "daead/subtle.NewAESSIV", "daead", "daead/subtle.(AESSIV)", 0, []namedBytes{{"key", k64, ""}},
 		func(a [][]byte) (any, error) { return daeadsubtle.NewAESSIV(a[0]) }, nil)
 	// ---------------- prf/subtle
-	directTarget("prf/subtle.AESCMACPRF", "prf/subtle.NewAESCMACPRF", "prf1", "prf/subtle.(AESCMACPRF)", 0, []namedBytes{{"key", k32}},
+	directTarget("prf/subtle.AESCMACPRF", "prf/subtle.NewAESCMACPRF", "prf1", "prf/subtle.(AESCMACPRF)", 0, []namedBytes{{"key", k32, ""}},
 		func(a [][]byte) (any, error) { return prfsubtle.NewAESCMACPRF(a[0]) }, nil)
-	directTarget("prf/subtle.HMACPRF", "prf/subtle.NewHMACPRF", "prf1", "prf/subtle.(HMACPRF)", 0, []namedBytes{{"key", k32}},
+	directTarget("prf/subtle.HMACPRF", "prf/subtle.NewHMACPRF", "prf1", "prf/subtle.(HMACPRF)", 0, []namedBytes{{"key", k32, ""}},
 		func(a [][]byte) (any, error) { return prfsubtle.NewHMACPRF("SHA256", a[0]) }, nil)
-	directTarget("prf/subtle.HKDFPRF", "prf/subtle.NewHKDFPRF", "prf1", "prf/subtle.(HKDFPRF)", 0, []namedBytes{{"key", k32}, {"salt", []byte("c19 hkdf prf salt")}},
+	directTarget("prf/subtle.HKDFPRF", "prf/subtle.NewHKDFPRF", "prf1", "prf/subtle.(HKDFPRF)", 0, []namedBytes{{"key", k32, ""}, {"salt", []byte("c19 hkdf prf salt"), ""}},
 		func(a [][]byte) (any, error) { return prfsubtle.NewHKDFPRF("SHA256", a[0], a[1]) }, nil)
 	// ---------------- kwp/subtle
-	directTarget("kwp/subtle.KWP", "kwp/subtle.NewKWP", "kwp", "kwp/subtle.(KWP)", 0, []namedBytes{{"wrappingKey", k32}},
+	directTarget("kwp/subtle.KWP", "kwp/subtle.NewKWP", "kwp", "kwp/subtle.(KWP)", 0, []namedBytes{{"wrappingKey", k32, ""}},
 		func(a [][]byte) (any, error) { return kwpsubtle.NewKWP(a[0]) }, nil)
 	// ---------------- signature/subtle
 	{
@@ -213,17 +218,17 @@ func init() {
 		verifier := func(a [][]byte) any { return must(sigsubtle.NewED25519Verifier(clone(edPub))) }
 		signer := func(a [][]byte) any { return must(sigsubtle.NewED25519Signer(clone(seed))) }
 		directTarget("signature/subtle.ED25519Signer/NewED25519Signer", "signature/subtle.NewED25519Signer", "signer", "signature/subtle.(ED25519Signer)", 0,
-			[]namedBytes{{"keyValue", seed}}, func(a [][]byte) (any, error) { return sigsubtle.NewED25519Signer(a[0]) }, verifier)
+			[]namedBytes{{"keyValue", seed, ""}}, func(a [][]byte) (any, error) { return sigsubtle.NewED25519Signer(a[0]) }, verifier)
 		directTarget("signature/subtle.ED25519Signer/NewED25519SignerFromPrivateKey", "signature/subtle.NewED25519SignerFromPrivateKey", "signer",
-			"signature/subtle.(ED25519Signer)", 0, []namedBytes{{"privateKey", []byte(edPriv)}},
+			"signature/subtle.(ED25519Signer)", 0, []namedBytes{{"privateKey", []byte(edPriv), ""}},
 			func(a [][]byte) (any, error) {
 				pk := stded25519.PrivateKey(a[0])
 				return sigsubtle.NewED25519SignerFromPrivateKey(&pk)
 			}, verifier)
 		directTarget("signature/subtle.ED25519Verifier/NewED25519Verifier", "signature/subtle.NewED25519Verifier", "verifier", "signature/subtle.(ED25519Verifier)", 0,
-			[]namedBytes{{"pub", edPub}}, func(a [][]byte) (any, error) { return sigsubtle.NewED25519Verifier(a[0]) }, signer)
+			[]namedBytes{{"pub", edPub, ""}}, func(a [][]byte) (any, error) { return sigsubtle.NewED25519Verifier(a[0]) }, signer)
 		directTarget("signature/subtle.ED25519Verifier/NewED25519VerifierFromPublicKey", "signature/subtle.NewED25519VerifierFromPublicKey", "verifier",
-			"signature/subtle.(ED25519Verifier)", 0, []namedBytes{{"publicKey", edPub}},
+			"signature/subtle.(ED25519Verifier)", 0, []namedBytes{{"publicKey", edPub, ""}},
 			func(a [][]byte) (any, error) {
 				pk := stded25519.PublicKey(a[0])
 				return sigsubtle.NewED25519VerifierFromPublicKey(&pk)
@@ -236,12 +241,12 @@ func init() {
 		for _, enc := range []string{"DER", "IEEE_P1363"} {
 			enc := enc
 			directTarget("signature/subtle.ECDSASigner/"+enc, "signature/subtle.NewECDSASigner", "signer", "signature/subtle.(ECDSASigner)", 0,
-				[]namedBytes{{"keyValue", d}}, func(a [][]byte) (any, error) { return sigsubtle.NewECDSASigner("SHA256", "NIST_P256", enc, a[0]) },
+				[]namedBytes{{"keyValue", d, ""}}, func(a [][]byte) (any, error) { return sigsubtle.NewECDSASigner("SHA256", "NIST_P256", enc, a[0]) },
 				func(a [][]byte) any {
 					return must(sigsubtle.NewECDSAVerifier("SHA256", "NIST_P256", enc, clone(xb), clone(yb)))
 				})
 			directTarget("signature/subtle.ECDSAVerifier/"+enc, "signature/subtle.NewECDSAVerifier", "verifier", "signature/subtle.(ECDSAVerifier)", 0,
-				[]namedBytes{{"x", xb}, {"y", yb}}, func(a [][]byte) (any, error) {
+				[]namedBytes{{"x", xb, ""}, {"y", yb, ""}}, func(a [][]byte) (any, error) {
 					return sigsubtle.NewECDSAVerifier("SHA256", "NIST_P256", enc, a[0], a[1])
 				},
 				func(a [][]byte) any { return must(sigsubtle.NewECDSASigner("SHA256", "NIST_P256", enc, clone(d))) })
@@ -265,9 +270,9 @@ func init() {
 			}})
 	}
 	// ---------------- streamingaead/subtle
-	directTarget("streamingaead/subtle.AESGCMHKDF", "streamingaead/subtle.NewAESGCMHKDF", "streaming", "streamingaead/subtle.(AESGCMHKDF)", 1, []namedBytes{{"mainKey", k32}},
+	directTarget("streamingaead/subtle.AESGCMHKDF", "streamingaead/subtle.NewAESGCMHKDF", "streaming", "streamingaead/subtle.(AESGCMHKDF)", 1, []namedBytes{{"mainKey", k32, ""}},
 		func(a [][]byte) (any, error) { return streamsubtle.NewAESGCMHKDF(a[0], "SHA256", 16, 4096, 0) }, nil)
-	directTarget("streamingaead/subtle.AESCTRHMAC", "streamingaead/subtle.NewAESCTRHMAC", "streaming", "streamingaead/subtle.(AESCTRHMAC)", 1, []namedBytes{{"mainKey", k32}},
+	directTarget("streamingaead/subtle.AESCTRHMAC", "streamingaead/subtle.NewAESCTRHMAC", "streaming", "streamingaead/subtle.(AESCTRHMAC)", 1, []namedBytes{{"mainKey", k32, ""}},
 		func(a [][]byte) (any, error) {
 			return streamsubtle.NewAESCTRHMAC(a[0], "SHA256", 16, "SHA256", 16, 4096, 0)
 		}, nil)
@@ -307,14 +312,19 @@ func init() {
 				}
 			}},
 			Obs: func(x any) map[string]string {
+				// forward-looking: both writers get one more full segment, so that whatever the object
+				// refers to NOW (nonce prefix, buffered plaintext) goes into the compared output at once
 				o := x.(*wobj)
-				return map[string]string{"sameAsTwin": boolStr(bytes.Equal(o.sink.Bytes(), o.tsink.Bytes()))}
+				probe := bytes.Repeat([]byte("c19 probe segment "), 8)[:128]
+				_, e1 := o.w.Write(clone(probe))
+				_, e2 := o.tw.Write(clone(probe))
+				return map[string]string{"sameAsTwin": boolStr(e1 == nil && e2 == nil && bytes.Equal(o.sink.Bytes(), o.tsink.Bytes()))}
 			}})
 		type robj struct{ r, tr *noncebased.Reader }
 		ct := func() []byte {
 			var b bytes.Buffer
 			w := must(mkW(clone(prefix), &b))
-			must(w.Write(bytes.Repeat([]byte("c19 stream plaintext "), 400)))
+			must(w.Write(bytes.Repeat([]byte("c19 stream plaintext "), 2000)))
 			must(0, w.Close())
 			return b.Bytes()
 		}()
@@ -344,9 +354,10 @@ func init() {
 				}
 			}},
 			Obs: func(x any) map[string]string {
-				// the next 16 bytes of both readers (consumed from both: they stay in lock-step)
+				// the next 150 bytes (more than two segments) of both readers, consumed from both (they stay in
+				// lock-step): whatever the object refers to NOW is used at once
 				o := x.(*robj)
-				a, b := make([]byte, 16), make([]byte, 16)
+				a, b := make([]byte, 150), make([]byte, 150)
 				na, ea := io.ReadFull(o.r, a)
 				nb, eb := io.ReadFull(o.tr, b)
 				return map[string]string{"nextAsTwin": boolStr(na == nb && (ea == nil) == (eb == nil) && bytes.Equal(a[:na], b[:nb]))}
@@ -395,11 +406,11 @@ func init() {
 			return must(hybridsubtle.NewECIESAEADHKDFHybridEncrypt(&priv0.PublicKey, s, "SHA256", "UNCOMPRESSED", demHelper{}))
 		}
 		directTarget("hybrid/subtle.ECIESAEADHKDFHybridEncrypt", "hybrid/subtle.NewECIESAEADHKDFHybridEncrypt", "hybridenc", "hybrid/subtle.(ECIESAEADHKDFHybridEncrypt)", 0,
-			[]namedBytes{{"hkdfSalt", salt}}, func(a [][]byte) (any, error) {
+			[]namedBytes{{"hkdfSalt", salt, ""}}, func(a [][]byte) (any, error) {
 				return hybridsubtle.NewECIESAEADHKDFHybridEncrypt(&priv0.PublicKey, a[0], "SHA256", "UNCOMPRESSED", demHelper{track: true})
 			}, func(a [][]byte) any { return dec(a[0]) }, "hybrid/subtle.(EciesAEADHKDFDEMHelper).GetAEADOrDAEAD")
 		directTarget("hybrid/subtle.ECIESAEADHKDFHybridDecrypt", "hybrid/subtle.NewECIESAEADHKDFHybridDecrypt", "hybriddec", "hybrid/subtle.(ECIESAEADHKDFHybridDecrypt)", 0,
-			[]namedBytes{{"hkdfSalt", salt}}, func(a [][]byte) (any, error) {
+			[]namedBytes{{"hkdfSalt", salt, ""}}, func(a [][]byte) (any, error) {
 				return hybridsubtle.NewECIESAEADHKDFHybridDecrypt(priv0, a[0], "SHA256", "UNCOMPRESSED", demHelper{track: true})
 			}, func(a [][]byte) any { return enc(a[0]) }, "hybrid/subtle.(EciesAEADHKDFDEMHelper).GetAEADOrDAEAD")
 		peerPoint := hybridsubtle.ECPoint{X: x, Y: y}
